@@ -326,7 +326,27 @@ class Verifier:
                 selfv = frame_locals[name]
         if c.options.get("closure") is not None:
             frame_locals.setdefault(fnode.name, VFunc(fnode, None, ci, relpath, fnode.name))     # recursive calls go through the contract
-        ghost_vals = {g: I.fresh(parse_type(t), g) for g, t in c.ghost_params.items()}
+        if c.options.get("setup"):
+            # the pre-state is BUILT by running a function of the contract file symbolically on the real classes (a fixed object-graph shape
+            # with symbolic labels / values / collaborators): the function under contract is then proved for every such pre-state of that shape
+            fn_s, rel_s = self.spec_funcs[c.options["setup"]]
+            gh = {g: I.fresh(parse_type(t), g) for g, t in c.ghost_params.items()}
+            run.ghost.update(gh)
+            sf = E.Frame(relpath, ci, dict(gh), None, "setup")
+            try:
+                I.exec_block(fn_s.body, sf)
+                built = NONE
+            except E._Return as r_:
+                built = r_.value
+            except E.PyExc:
+                raise E.PathEnd()         # the real constructors refuse this combination: there is no such pre-state
+            if not (isinstance(built, VRef) and built.kind == "dict"):
+                raise E.Unsupported("setup function must return a dict of bindings")
+            for key_, (k_, v_) in run.rec(built.oid).items.items():
+                frame_locals[key_[1]] = v_
+                if key_[1] == "self":
+                    selfv = v_
+        ghost_vals = {g: (run.ghost[g] if g in run.ghost else I.fresh(parse_type(t), g)) for g, t in c.ghost_params.items()}
         if fnode.args.vararg is not None:
             frame_locals[fnode.args.vararg.arg] = VTuple([])
         if fnode.args.kwarg is not None:
